@@ -39,6 +39,8 @@ def gen(rng, tier, k):
         if kept:
             ab["notes"] = kept
             ab["last_lane_empty"] = True
+    if sg == "osu" and rng.random() < 0.3:
+        ab["osu_meter"] = rng.choice([3, 5, 7])  # the time signature of an osu timing point does not move anything in time
     if sg in ("osu", "qua") and len(ab["tempo"]) > 1 and rng.random() < 0.4:
         ab["tempo_rows_reversed"] = True  # tempo entries listed out of time order in the source file
     return dict(cls=name, pair=name, src=sg, tgt=tg, abstract=ab, meta=dict(title=rng.choice(["Title", "a b", "Song 2"]), artist=rng.choice(["Artist", "DJ X"]),
@@ -124,6 +126,15 @@ def run(ctx, case):
         outs = out if isinstance(out, list) else [out]
         if sg == "o2j":
             outs = outs[:1]
+        if ctx.cur_k is not None and ctx.cur_k % 2 == 0:
+            # another chart of the same shape converted before the first result is written: the first result must not move
+            stage = "second conversion"
+            with ctx.quiet():
+                other = src.deepcopy()
+                for m_ in (other.maps if hasattr(other, "maps") else [other]):
+                    if sum(len(v) for v in m_.objs.values()):
+                        m_.stack().offset += 4321.0
+            cls.convert(other)
         stage = "write"
         texts = [o.write(BMSChannel.BME) if tg == "bms" else o.write() for o in outs]
     except Exception as e:
